@@ -734,7 +734,7 @@ func runGenesisCmd(args []string) {
 		if *only >= 0 && h != *only {
 			continue
 		}
-		g := &Gen{r: rand.New(rand.NewSource(*seed*1000003 + int64(h))), stats: stats}
+		g := &Gen{r: rand.New(rand.NewSource(*seed*1000003 + int64(h))), stats: stats, noCross: true}
 		xr := rand.New(rand.NewSource(*seed*7919 + int64(h)*104729 + 17)) // export points: own stream
 		g.mkActors()
 		e := NewEnv()
